@@ -412,7 +412,61 @@ func c12Flatten(r *R) {
 		if len(n.leaves) >= 2 {
 			r.Nontrivial("F" + n.text)
 		}
+		// the same nesting with its []int leaves laid out as consecutive windows of ONE array (each window's
+		// spare capacity is the next leaves' storage): the result is still the leaves left to right
+		// (round 7: C12-12, the first leaf adopted as the accumulator, later appends land in later leaves)
+		if w, k := windowedNest(n.v); !n.bad && k >= 1 {
+			var got []int
+			var err error
+			p, msg := enum.Try(func() { got, err = gogu.Flatten[int](w) })
+			r.Eval("Flatten")
+			switch {
+			case p:
+				r.Bad("Flatten/panic/leaves-share-one-array", wit, "panicked: %s", msg)
+			case err != nil || !eqSlice(got, n.leaves):
+				r.Bad("Flatten/not-leaves-left-to-right/leaves-share-one-array", wit+" with the []int leaves as consecutive windows of one array", "got (%v,%v), want %v", got, err, n.leaves)
+			}
+		}
 	}
+}
+
+// windowedNest rebuilds a nesting (int | []int | []any) with every []int leaf replaced by a window of one
+// backing array that holds all those leaves one after the other plus three spare slots; k = number of windows.
+func windowedNest(v any) (any, int) {
+	var all []int
+	var collect func(v any)
+	collect = func(v any) {
+		switch x := v.(type) {
+		case []int:
+			all = append(all, x...)
+		case []any:
+			for _, e := range x {
+				collect(e)
+			}
+		}
+	}
+	collect(v)
+	backing := make([]int, len(all), len(all)+3)
+	copy(backing, all)
+	off, k := 0, 0
+	var build func(v any) any
+	build = func(v any) any {
+		switch x := v.(type) {
+		case []int:
+			w := backing[off : off+len(x)]
+			off += len(x)
+			k++
+			return w
+		case []any:
+			out := make([]any, len(x))
+			for i, e := range x {
+				out[i] = build(e)
+			}
+			return out
+		}
+		return v
+	}
+	return build(v), k
 }
 
 // c12FlattenDeep: nestings far deeper than the grammar above reaches. Every "comb" of depth d <= D:
